@@ -97,6 +97,10 @@ def case(g, tier, ci):
     ops += [{**st, "id": "s0"} for st in settings]
     ops += [{"op": "sq.copy", "id": "s", "to": "sc"}, {"op": "sq.add", "a": "s", "b": "sc", "to": "ss"},
             {"op": "sq.add", "a": "s0", "b": "s", "to": "es"}]
+    # a piece that has only its sample rate set: `+` refuses it on either side (different AWG settings) and
+    # leaves both operands as they were (seeded C09-m10: only contradicting settings refused)
+    ops += [{"op": "sq.new", "id": "sb"}, {"op": "sq.setSR", "id": "sb", "v": enc(SR)}, {"op": "sq.addElement", "id": "sb", "pos": 1, "el": "ec"},
+            {"op": "sq.add", "a": "s", "b": "sb", "to": "xb"}, {"op": "sq.add", "a": "sb", "b": "s", "to": "bx"}]
     objs = [("bp", "b"), ("bp", "b2"), ("bp", "bc"), ("bp", "bs"), ("el", "e"), ("el", "ec"), ("sq", "s"), ("sq", "sc"), ("sq", "ss"),
             ("sq", "es")]
     if have_sub:
